@@ -28,6 +28,11 @@ def o_save_load(inp):
     from scoda.sequences.sequence import Sequence
     import tempfile
     rels = [[tuple(m) for m in r] for r in inp["rels"]]
+    for r in rels:
+        tr, _ = rel_timed(r)
+        if wf_violations(tr) or any(on >= off for (_, _, on, off, _) in notes_of(tr)) \
+                or any(m[TY] == ON and not (1 <= (m[VEL] or 0) <= 127) for m in r):
+            return [("~skip:outside-domain", "")]
     seqs = [P.seq_of_rel(r) for r in rels]
     fd, path = tempfile.mkstemp(suffix=".mid", dir=SCRATCH)
     os.close(fd)
